@@ -27,7 +27,24 @@ type optU64 struct {
 var lpVals = []optU64{{0, false}, {0, true}, {1, true}, {2, true}, {3, true}, {1 << 16, true}, {1 << 63, true}, {1<<64 - 1, true}, {1 << 32, true}}
 
 var lpTokenLens = []int{0, 4, 6, 8}
-var lpFragKinds = []string{"none", "Interest", "Data", "garbage", "Interest[:half]", "Interest[half:]"}
+var lpFragKinds = []string{"none", "Interest", "Data", "garbage", "Interest[:half]", "Interest[half:]",
+	"LpPacket(empty fragment)", "LpPacket(Interest)", "LpPacket(LpPacket(empty fragment))", "Name TLV", "ControlParameters TLV", "block 0x50"}
+
+// well-formed TLVs that are neither an Interest nor a Data
+var (
+	lpInnerEmpty = []byte{0x64, 0x02, 0x50, 0x00}
+	lpNameTLV    = []byte{0x07, 0x03, 0x08, 0x01, 0x61}
+	lpCtrlTLV    = []byte{0x68, 0x08, 0x07, 0x03, 0x08, 0x01, 0x61, 0x69, 0x01, 0x05}
+	lpBlock50    = []byte{0x50, 0x02, 0x61, 0x62}
+)
+
+func lpWrap(inner []byte) []byte {
+	val := append([]byte{0x50}, encVar(uint64(len(inner)), minWidth(uint64(len(inner))))...)
+	val = append(val, inner...)
+	out := append([]byte{0x64}, encVar(uint64(len(val)), minWidth(uint64(len(val))))...)
+	return append(out, val...)
+}
+
 var lpConfigs = []struct {
 	n     int
 	local bool
@@ -38,9 +55,9 @@ type lpFrameDesc struct {
 }
 
 // digits (most significant first): FragCount, FragIndex, Sequence, token(16), fragment(6)
-var lpRadix = []int{9, 9, 9, 16, 6}
+var lpRadix = []int{9, 9, 9, 16, 12}
 
-func lpSize() int64 { return 9 * 9 * 9 * 16 * 6 }
+func lpSize() int64 { return 9 * 9 * 9 * 16 * 12 }
 
 func lpDecode(i int64) lpFrameDesc {
 	d := make([]int, 5)
@@ -79,8 +96,20 @@ func lpFragment(kind int) enc.Wire {
 		return enc.Wire{[]byte{0x05, 0xfd, 0xff, 0xff, 0x07}}
 	case 4:
 		return enc.Wire{seedInterestMin[:len(seedInterestMin)/2]}
-	default:
+	case 5:
 		return enc.Wire{seedInterestMin[len(seedInterestMin)/2:]}
+	case 6:
+		return enc.Wire{lpInnerEmpty}
+	case 7:
+		return enc.Wire{lpWrap(seedInterestMin)}
+	case 8:
+		return enc.Wire{lpWrap(lpInnerEmpty)}
+	case 9:
+		return enc.Wire{lpNameTLV}
+	case 10:
+		return enc.Wire{lpCtrlTLV}
+	default:
+		return enc.Wire{lpBlock50}
 	}
 }
 
@@ -124,6 +153,9 @@ func buildLpAlphabet(thorough bool) {
 	lpAlphabet = nil
 	for i := int64(0); i < lpSize(); i++ {
 		d := lpDecode(i)
+		if d.frag > 6 {
+			continue // sequences: the original fragment kinds plus a nested LpPacket
+		}
 		if d.tok == 0 || d.tok == 7 || d.tok == 8 { // tok 6..10 are the 6-byte tokens: prefixes 0,n-1,n,n+1,65535
 			lpAlphabet = append(lpAlphabet, i)
 		}
